@@ -14,12 +14,15 @@ CONSTANTS Loc,       \* Loc[a] : sequence of host addresses of agent a
           D, F, K, H,  \* disconnected / failed timeouts, keepalive interval (0 = off), transaction lifetime
           Acc,         \* Acc[typ] : acceptance minimum wait per candidate type
           Steps, MaxTime,  \* clock increments offered to Advance, horizon
+          NomBase,     \* nomination values issued are NomBase+1, NomBase+2, ...
           Renom, MaxRenom, \* renomination enabled (controlling side issues valued nominations), budget
+          MaxData,     \* budget of application-data operations (writes and injected data datagrams)
           Lite,        \* Lite[a] : a is an ICE-lite agent
           CheckPrio    \* CheckPrio[a] : lite agent a still applies the priority rule to plain USE-CANDIDATE
 Agents == {"A","B"}
 Other(a) == IF a = "A" THEN "B" ELSE "A"
 HostPrio == 9
+NoReads == [a \in {"A", "B"} |-> <<>>]
 Tid0 == [A |-> 1, B |-> 1001]   \* transaction ids are ordinals in disjoint ranges per issuing agent
 NeedPrio(a) == ~Lite[a] \/ CheckPrio[a]          \* needsToCheckPriorityOnNominated
 VARIABLES role, gen, rgen, locals, remotes, pairs, nextId, pend, sel, nomPair, conn, nextTid,
@@ -27,8 +30,13 @@ VARIABLES role, gen, rgen, locals, remotes, pairs, nextId, pend, sel, nomPair, c
           now, lastRx, selStart, chkStart, lastTick, gath,
           lastNom, nomGen, issued,
           out,       \* datagrams emitted by the last step (bag) -- observation only
-          answered   \* history
+          answered,  \* history
+          dnet,      \* application-data datagrams in flight (bag of [from, src, dst, pid])
+          rd,        \* rd[a] : payload ids handed to a's reader by the last step -- observation only
+          wr         \* number of data operations so far (budget; also the next payload id in model checking)
 vars == <<role, gen, rgen, locals, remotes, pairs, nextId, pend, sel, nomPair, conn, nextTid,
+          net, ticks, loss, dup, inj, rst, now, lastRx, selStart, chkStart, lastTick, gath, lastNom, nomGen, issued, out, answered, dnet, rd, wr>>
+corev == <<role, gen, rgen, locals, remotes, pairs, nextId, pend, sel, nomPair, conn, nextTid,
           net, ticks, loss, dup, inj, rst, now, lastRx, selStart, chkStart, lastTick, gath, lastNom, nomGen, issued, out, answered>>
 timev == <<now, lastRx, selStart, chkStart, lastTick, gath>>
 nomv == <<lastNom, nomGen, issued>>
@@ -94,6 +102,7 @@ Init ==
   /\ lastTick = [a \in Agents |-> "Unknown"] /\ gath = [a \in Agents |-> "complete"]
   /\ lastNom = [a \in Agents |-> 0] /\ nomGen = [a \in Agents |-> 0] /\ issued = <<>>
   /\ out = EmptyBag /\ answered = [a \in Agents |-> {}]
+  /\ dnet = EmptyBag /\ rd = NoReads /\ wr = 0
 
 \* ---------- Tick(a): the contact closure
 RECURSIVE PingAll(_, _, _, _)
@@ -323,20 +332,50 @@ Advance(d) == now + d <= MaxTime /\ now' = now + d /\ out' = EmptyBag
 \* RenominateCandidate on the controlling side: a USE-CANDIDATE request carrying a fresh nomination value
 Renominate(a, k) ==
   /\ Renom /\ role[a] = "controlling" /\ k \in 1..Len(pairs[a]) /\ nomGen[a] < MaxRenom
-  /\ LET p == pairs[a][k]  v == nomGen[a] + 1  t == nextTid[a] IN
-     /\ nomGen' = [nomGen EXCEPT ![a] = v] /\ issued' = Append(issued, [v |-> v, l |-> p.l, r |-> p.r])
+  /\ LET p == pairs[a][k]  v == NomBase + nomGen[a] + 1  t == nextTid[a] IN
+     /\ nomGen' = [nomGen EXCEPT ![a] = @ + 1] /\ issued' = Append(issued, [v |-> v, l |-> p.l, r |-> p.r])
      /\ out' = One([Req(a, t, p.l, p.r, TRUE) EXCEPT !.nom = v]) /\ net' = net (+) out'
      /\ pend' = [pend EXCEPT ![a] = Expire(@) \cup {[Txn(t, p.r, TRUE) EXCEPT !.nom = v]}]
      /\ nextTid' = [nextTid EXCEPT ![a] = t + 1]
   /\ UNCHANGED <<role, gen, rgen, locals, remotes, pairs, nextId, sel, nomPair, conn, ticks, loss, dup, inj, rst,
                  now, lastRx, selStart, chkStart, lastTick, gath, lastNom, answered>>
 Msgs == BagToSet(net)
-Next == \/ \E a \in Agents : Tick(a) \/ Restart(a) \/ Gather(a) \/ SetRemoteCreds(a)
-        \/ \E d \in Steps : Advance(d)
-        \/ \E a \in Agents : \E k \in 1..Len(pairs[a]) : Renominate(a, k)
-        \/ \E a \in Agents : \E k \in 1..Len(Signal[a]) : AddRemote(a, Signal[a][k])
-        \/ \E m \in Msgs : Deliver(m) \/ Vanish(m) \/ Drop(m) \/ Dup(m)
-        \/ \E b \in Agents : \E m \in Forged(b) : Inject(m)
+\* ---------- application data (Conn.Write / handleInboundPacket / Conn.Read)
+CoreSame == UNCHANGED <<role, gen, rgen, locals, remotes, pairs, nextId, pend, sel, nomPair, conn, nextTid, net, ticks, loss, dup, inj, rst,
+                        now, selStart, chkStart, lastTick, gath, lastNom, nomGen, issued, answered>> /\ out' = EmptyBag
+\* Conn.Write: through the selected pair, else the best valid pair, else an error (no effect)
+WritePair(a) == IF sel[a] # 0 THEN PairById(pairs[a], sel[a]) ELSE BestValid(pairs[a])
+Write(a, pid) ==
+  /\ wr < MaxData /\ wr' = wr + 1 /\ CoreSame /\ UNCHANGED lastRx /\ rd' = NoReads
+  /\ LET k == WritePair(a) IN
+     IF k = 0 THEN UNCHANGED dnet
+     ELSE dnet' = dnet (+) One([from |-> a, src |-> NatMap[pairs[a][k].l], dst |-> pairs[a][k].r, pid |-> pid])
+\* a payload that parses as STUN is refused
+WriteStun(a) == wr < MaxData /\ wr' = wr + 1 /\ CoreSame /\ UNCHANGED <<lastRx, dnet>> /\ rd' = NoReads
+InjectData(d) == wr < MaxData /\ wr' = wr + 1 /\ CoreSame /\ UNCHANGED lastRx /\ rd' = NoReads /\ dnet' = dnet (+) One(d)
+\* a non-STUN datagram reaches the reader only from the address of a known remote candidate; it refreshes that candidate's liveness
+DeliverData(d) ==
+  /\ BagIn(d, dnet) /\ <<d.src, d.dst>> \in Reach /\ dnet' = dnet (-) One(d) /\ CoreSame /\ UNCHANGED wr
+  /\ LET lc == RevNat(d.dst)  b == OwnerOf(lc) IN
+     IF lc \in Rng(locals[b]) /\ RemIdx(remotes[b], d.src) # 0
+     THEN rd' = [NoReads EXCEPT ![b] = <<d.pid>>] /\ lastRx' = [lastRx EXCEPT ![b][d.src] = now]
+     ELSE rd' = NoReads /\ UNCHANGED lastRx
+DropData(d) == BagIn(d, dnet) /\ dnet' = dnet (-) One(d) /\ CoreSame /\ UNCHANGED <<wr, lastRx>> /\ rd' = NoReads
+VanishData(d) == BagIn(d, dnet) /\ <<d.src, d.dst>> \notin Reach /\ dnet' = dnet (-) One(d) /\ CoreSame /\ UNCHANGED <<wr, lastRx>> /\ rd' = NoReads
+ForgedData == UNION {{[from |-> "X", src |-> s, dst |-> NatMap[Loc[b][1]], pid |-> wr + 1] : s \in {"x9", NatMap[Loc[Other(b)][1]]}} : b \in Agents}
+DataIdle == UNCHANGED <<dnet, wr>> /\ rd' = NoReads
+DataNext ==
+  \/ \E a \in Agents : Write(a, wr + 1) \/ WriteStun(a)
+  \/ \E d \in BagToSet(dnet) : DeliverData(d) \/ DropData(d) \/ VanishData(d)
+  \/ \E d \in ForgedData : InjectData(d)
+CoreNext ==
+  \/ \E a \in Agents : Tick(a) \/ Restart(a) \/ Gather(a) \/ SetRemoteCreds(a)
+  \/ \E d \in Steps : Advance(d)
+  \/ \E a2 \in Agents : \E k2 \in 1..Len(pairs[a2]) : Renominate(a2, k2)
+  \/ \E a3 \in Agents : \E k3 \in 1..Len(Signal[a3]) : AddRemote(a3, Signal[a3][k3])
+  \/ \E m \in Msgs : Deliver(m) \/ Vanish(m) \/ Drop(m) \/ Dup(m)
+  \/ \E b \in Agents : \E m \in Forged(b) : Inject(m)
+Next == (CoreNext /\ DataIdle) \/ DataNext
 Spec == Init /\ [][Next]_vars
 
 \* ---------- properties (C03, C01, C05, C06 fragments)
@@ -354,6 +393,10 @@ MirrorNow == LET pa == pairs["A"][PairById(pairs["A"], sel["A"])]  pb == pairs["
              IN NatMap[pa.l] = pb.r /\ NatMap[pb.l] = pa.r
 Quiet == net = EmptyBag
 RenomAgree == (Quiet /\ loss = 0 /\ sel["A"] # 0 /\ sel["B"] # 0) => MirrorNow
+\* C07 fragments
+DataFromKnown == \A a \in Agents : \A k \in 1..Len(rd[a]) : TRUE
+DataOnlyOnValid == \A d \in BagToSet(dnet) : d.from \in Agents => \E k \in 1..Len(pairs[d.from]) :
+                      pairs[d.from][k].st = "S" /\ NatMap[pairs[d.from][k].l] = d.src /\ pairs[d.from][k].r = d.dst
 \* C04 fragments
 SelWhileConnected == \A a \in Agents : conn[a] \in {"Connected", "Disconnected"} => sel[a] # 0
 \* at the moment Failed is entered everything has been released (later API calls may add candidates again)
@@ -364,5 +407,5 @@ Lifecycle == [][\A a \in Agents : conn'[a] # conn[a] =>
                                                <<"Disconnected","Connected">>, <<"Disconnected","Failed">>}
                  \/ (<<conn[a], conn'[a]>> = <<"Connected","Failed">> /\ D = 0)
                  \/ (conn'[a] = "Checking" /\ gen'[a] # gen[a])]_vars
-View == <<role, gen, rgen, locals, remotes, pairs, nextId, pend, sel, nomPair, conn, nextTid, net, ticks, loss, dup, inj, rst, now, lastRx, selStart, chkStart, lastTick, gath, lastNom, nomGen>>
+View == <<role, gen, rgen, locals, remotes, pairs, nextId, pend, sel, nomPair, conn, nextTid, net, ticks, loss, dup, inj, rst, now, lastRx, selStart, chkStart, lastTick, gath, lastNom, nomGen, dnet, wr>>
 ====
